@@ -138,6 +138,9 @@ func (fr *Frame) visibleNames(loop *Loop) map[string]types.Type {
 			}
 		}
 	}
+	if loop != nil {
+		m["loopiter"] = types.Typ[types.Int] // copy index of an unrolled loop
+	}
 	for k, t := range fr.oldTypes {
 		m[k] = t
 	}
@@ -279,6 +282,13 @@ func (fr *Frame) resolveName(n string, st *State, loop *Loop, extra map[string]*
 		if lv := fr.localVar(n, loop); lv != nil {
 			if t := fr.localValue(lv, loop.Header, st); t != nil {
 				return t
+			}
+			// a named result that has not been assigned on any path to the loop holds its zero value
+			res := fr.fn.Signature.Results()
+			for i := 0; i < res.Len(); i++ {
+				if res.At(i) == lv {
+					return fr.x.ti.zero(lv.Type())
+				}
 			}
 		}
 	}
@@ -772,6 +782,9 @@ func (env *Env) evalCall(e *ast.CallExpr) *Term {
 		}
 		x.note("uninterpreted function in contracts: " + shortKey(key))
 		return c.UF("uf_"+sanitize(shortKey(key)), x.ti.sortOf(rt), args...)
+	}
+	if fc := x.P.Contracts[key]; fc != nil && fc.Recursive > 0 {
+		return env.fr.applyRecursive(env.st, sfn, fc, args)
 	}
 	// run as pure function on a scratch copy of the state (no effects leak)
 	scratch := env.st.clone()
